@@ -19,7 +19,9 @@ META = {
             "rewrite of _optimize_binop / _comparison_helper and the whole-tree recursion of _optimize (optimize_sound) preserve "
             "value, state and halting (truthiness in truthy contexts); the seq-level merges (memzero, calldataload/dload/"
             "mload copies with the overlap guard) preserve memory; each assembly peephole pass preserves halting behaviour on "
-            "a labelled-program semantics. Models are tied to the source by exact output equality (complete boundary grid, "
+            "a labelled-program semantics; the unique_symbol bookkeeping (the optimiser never loses, duplicates or invents "
+            "a marker a binop rewrite must keep); the compile_ir lowering pushes the value of pure expressions and keeps "
+            "its stack-height bookkeeping exact on every path through if / repeat / break / continue. Models are tied to the source by exact output equality (complete boundary grid, "
             "seeded random trees, generated and compiler-emitted assemblies) and by executing the same IR / assembly / "
             "contracts with and without the optimisers on an EVM.",
     "level_note": "Trusted: Coq kernel + vm_compute, py2coq translator, Word256.v (tied to pyrevm by C14's wordtie), hand models "
